@@ -88,6 +88,36 @@ def cases_for(rng, thorough):
             cases.append((vt, node, V, U))
         # the solver compiles the Hessian of the *negated* objective for maximisation (scipy_solver.py)
         cases.append((tag + "|negated", -node, list(own), U))
+    # audit families shared with c03 (dimension checklist): root wrappers in every operator form around every node —
+    # compile_hessian dispatches on the ROOT node, so `c − f`, `k·(c − f)`, `−(c − k·f)`, `f / k`, … must all reach the same
+    # second derivatives —, every operand kind (views of views, symmetric blocks, matrix–vector products), magnitudes and
+    # numeric types of stored numbers, names, depth
+    base_nodes = hess_nodes(rng, U)
+    anodes, askip = J.audit_nodes(rng, U)
+    J.AUDIT_SKIPPED.update(askip)
+    anodes = [(t, nd) for t, nd in anodes if len(J.own_vars(nd)) <= 6]
+    for tag, node in anodes:
+        own = J.own_vars(node)
+        cases.append((f"{tag}|own", node, list(own), U))
+        if zlib.crc32(tag.encode()) % 2 == 0:
+            cases.append((f"{tag}|rev+extra", node, [U.scalars[2]] + list(reversed(own)), U))
+    wr = J.wrappers(U)[1:] + J.extended_wrappers(U)
+    for ni, (tag, node) in enumerate(base_nodes + anodes):
+        own = J.own_vars(node)
+        vector_sum = tag.startswith(("ps", "us"))
+        for wi, (wn, wf) in enumerate(wr):
+            if (ni + wi) % ((2 if vector_sum else 6) if thorough else (6 if vector_sum else 24)) != 0:
+                continue
+            try:
+                cases.append((f"{tag}|wrap:{wn}", wf(node), list(own), U))
+            except Exception as ex:  # noqa: BLE001
+                J.AUDIT_SKIPPED[f"wrapper:{type(ex).__name__}"] = J.AUDIT_SKIPPED.get(f"wrapper:{type(ex).__name__}", 0) + 1
+    for tag, es, V in J.names_universe():
+        if len(V) <= 8 or thorough:
+            cases.append(("|".join(tag.split("|")[:2]), es[0], V, U))
+    for tag, es, V in J.deep_cases(U, (399, 400, 401)):
+        if "const-left" in tag or thorough:
+            cases.append(("|".join(tag.split("|")[:2]), es[0], V, U))
     for tag, e in J.composition_exprs(U):
         own = sorted({v.name: v for v in gen.expr_vars(e)}.values(), key=lambda v: v.name)
         cases.append((f"{tag}|own", e, own, U))
@@ -131,6 +161,8 @@ def oracle_hessian(e, V, xs):
     point = {v.name: float(a) for v, a in zip(V, xs)}
     n = len(V)
     try:
+        if not J.model_regular(e, point):
+            return None
         H = [[oracle.ref_hess(e, point, V[i].name, V[j].name) for j in range(n)] for i in range(n)]
     except (oracle.NotRegular, OverflowError, ZeroDivisionError, ValueError, KeyError):
         return None
@@ -213,14 +245,19 @@ def run(ctx) -> core.Report:
                            "VectorUnarySum (10 ops) × views × V ∈ {own, reversed, permuted, superset, interleaved, clones, "
                            "missing variable}; vector / matrix / scalar nodes on the general path; seeded random regular trees. "
                            "non-trivial = distinct (expression, V) whose symbolic Hessian is not identically 0")
+    J.AUDIT_SKIPPED.clear()
     cases = cases_for(rng, thorough)
+    for k, v in J.AUDIT_SKIPPED.items():
+        rep.skipped[k] = rep.skipped.get(k, 0) + v
     lines, metas = [], []
+    oracle_only = []
     for tag, e, V, U in cases:
         try:
             params = J.all_params([e])
             es_s, V_s, store = J.ser_case([e], V, params)
         except Unsupported as ex:
-            rep.skipped["unsupported:" + str(ex)] = rep.skipped.get("unsupported:" + str(ex), 0) + 1
+            rep.skipped["model-unsupported(oracle only):" + str(ex)] = rep.skipped.get("model-unsupported(oracle only):" + str(ex), 0) + 1
+            oracle_only.append((tag, e, V))
             continue
         xs = J.rand_x(rng, len(V), rng.random() < 0.6)
         VV, X = J.plist(V_s), J.point_text(xs)
@@ -274,6 +311,8 @@ def run(ctx) -> core.Report:
             more = J.sign_points(rng, len(V))
         elif V and covered and "orders" not in tag:
             more = [[rng.choice((1.0, -1.0)) * rng.choice(J.MAGS) for _ in V]]
+            if len(V) <= 4:
+                more.append(J.wide_point(rng, len(V)))
         else:
             more = []
         for pt in [xs] + more:
@@ -287,7 +326,7 @@ def run(ctx) -> core.Report:
                 f["tag"] = tag
                 rep.oracle_failures.append(f)
         # call sequences on one compiled Hessian at regular points (answers must not depend on the call history)
-        if V and covered and want is not None and (thorough or "orders" not in tag or rng.random() < 0.25):
+        if V and covered and want is not None and (thorough or zlib.crc32(tag.encode()) % 3 == 0):
             q = J.rand_x(rng, len(V), True)
             sf, n_calls = J.check_sequences("hess", [e], V, J.light_sequences(xs, q, len(params)))
             rep.histogram["sequence_calls"] = rep.histogram.get("sequence_calls", 0) + n_calls
@@ -300,6 +339,26 @@ def run(ctx) -> core.Report:
                     rep.skipped["sequence-at-irregular-point"] = rep.skipped.get("sequence-at-irregular-point", 0) + 1
         if len(rep.samples) < 6 and len(outs[idx]) < 260 and outs[idx + 1] != "hessian_fn" and not outs[idx + 1].startswith("raise"):
             rep.samples.append({"tag": tag, "V": [v.name for v in V], "path": outs[idx + 1], "hessian": outs[idx]})
+    # cases the Lean syntax cannot express (bool constants, …): property oracle only
+    for tag, e, V in oracle_only:
+        if not V or len(V) > 6:
+            continue
+        for pt in (J.rand_x(rng, len(V), True), J.rand_x(rng, len(V), False)):
+            fails, checked, _ = check_numeric(e, V, pt)
+            rep.histogram["oracle_entries"] = rep.histogram.get("oracle_entries", 0) + checked
+            for f in fails:
+                f["exprs_repr"] = [repr(e)[:200]]; f["V_names"] = [v.name for v in V]; f["x"] = pt; f["tag"] = tag
+                rep.oracle_failures.append(f)
+    # a sample of the cells again with every recursion threshold forced low (explicit-stack differentiator / compiler)
+    with J.forced_thresholds(2):
+        for tag, e, V, xs, params, idx in metas[::(3 if thorough else 9)]:
+            if not V or tag.startswith("deep") or len(V) > 5:
+                continue
+            fails, checked, _ = check_numeric(e, V, xs)
+            rep.histogram["oracle_entries_thresholds_forced"] = rep.histogram.get("oracle_entries_thresholds_forced", 0) + checked
+            for f in fails:
+                f.update(J.payload_of([e], V, xs, params)); f["thresholds_forced"] = 2; f["tag"] = tag + "|threshold=2"
+                rep.oracle_failures.append(f)
     return rep
 
 
@@ -360,8 +419,15 @@ def replay(payload) -> bool:
     f = payload["failure"]
     if f.get("kind") == "call-sequence":
         return J.replay_sequence(f)
+    if "exprs" not in f:
+        print("no serialisable expression (outside the Lean syntax):", {k: f[k] for k in f if k != "got"})
+        return False
     es, V, xs = J.rebuild(f)
-    fails, checked, skipped = check_numeric(es[0], V, xs)
+    if f.get("thresholds_forced") is not None:
+        with J.forced_thresholds(int(f["thresholds_forced"])):
+            fails, checked, skipped = check_numeric(es[0], V, xs)
+    else:
+        fails, checked, skipped = check_numeric(es[0], V, xs)
     print("entries checked:", checked, "skipped:", skipped)
     for g in fails:
         print("FAIL:", g)
